@@ -502,6 +502,7 @@ void run_direct(Ctx& ctx, u64 c, unsigned ops_per_history) {
     ctx.count("histories_direct");
     ctx.count("ops", ops_per_history);
     ctx.count("frames", M.frames.size());
+    ctx.maxv("max_frames_in_one_history", M.frames.size());
     ctx.count("empty_irqs", M.empty_irqs);
     for (auto& f : M.frames) {
         int words = (f.l != 0) + (f.r != 0);
@@ -709,6 +710,9 @@ void run_facade(Ctx& ctx, u64 c, unsigned ops_per_history) {
 int main(int argc, char** argv) {
     Ctx ctx;
     ctx.parse(argc, argv, "C16");
+    static std::string prop = ctx.opts.count("prop") ? ctx.opts["prop"] : "C16";
+    ctx.prop = prop.c_str(); // the long histories also run as a sanitizer workload of C18
+    const unsigned ops_direct = (unsigned)ctx.opt_u64("ops", 80);
     const bool facade = ctx.mode == "facade";
     for (u64 c = 0; c < ctx.cases; ++c) {
         if (!ctx.selected(c))
@@ -716,7 +720,7 @@ int main(int argc, char** argv) {
         if (facade)
             run_facade(ctx, c, 240);
         else
-            run_direct(ctx, c, 80);
+            run_direct(ctx, c, ops_direct);
     }
     return ctx.finish();
 }
